@@ -705,6 +705,20 @@ pub fn run(ctx: &mut Ctx) {
         let ok = st.map(|st| st.len() == 1 && map_agrees(&st[0], &lit)).unwrap_or(false);
         check(ctx, &mut fails, "[incomparable-keys] ", ok, || format!("C12 {{}} {}", canon::stack_str(&args)), || alist_str(&lit), || out.clone());
     }
+    // integer keys and elements far apart from the small ones the sequences use: neighbours beyond 2^53, 2^63, 2^64,
+    // 2^100 (two keys stay two keys, a sorted vector is ascending) — always part of the run, whatever the random stream does
+    for k in [1i128 << 53, (1i128 << 63) - 1, 1i128 << 64, 1i128 << 100, -(1i128 << 53) - 1, i128::MAX - 3] {
+        let cells = [Cell::Int(1), Cell::Int(k), Cell::Int(2), Cell::Int(k + 1)];
+        let args = [vec_cell(&cells)];
+        let (out, st) = step(ctx, &base, "{}", &args);
+        let lit = vec![(Cell::Int(k), Cell::Int(1)), (Cell::Int(k + 1), Cell::Int(2))];
+        let ok = st.map(|st| st.len() == 1 && map_agrees(&st[0], &lit)).unwrap_or(false);
+        check(ctx, &mut fails, "", ok, || format!("C12 {{}} {}", canon::stack_str(&args)), || alist_str(&lit), || out.clone());
+        sort_case(ctx, &base, &mut fails, &[Cell::Int(k + 1), Cell::Int(k), Cell::Int(k + 2), Cell::Int(k - 1)]);
+        let (o2, s2) = run_src(&base, "equal?", &[Cell::Int(k), Cell::Int(k + 1)]);
+        check(ctx, &mut fails, "", s2.is_some() && o2 == canon::ok_stack(&[Cell::Flag(false)]), || format!("C12 equal? i{} i{}", k, k + 1), || "ok F".into(), || o2.clone());
+        ctx.tag("far-apart-integers");
+    }
     // collection literals are collection literals wherever they stand: inside a meta block, with values of the surrounding
     // program below them on the stack, `{ … }` and `[ … ]` build what they build at top level
     for below in ["", "10", "10 20", "[ 7 ] 8 9"] {
